@@ -27,6 +27,9 @@ def units(tier, seed):
     for ft, K in [("rayleigh", None), ("rician", 0.0), ("rician", 0.5), ("rician", 3.0), ("rician", 10.0), ("rician", 100.0)]:
         for sub in (False, True):
             out.append({"unit": f"stat:{ft}:K={K}:{'subclass' if sub else 'flat'}", "kind": "stat", "fading": ft, "K": K, "subclass": sub, "cost": 4})
+    for sub in (False, True):
+        # log-normal shadowing: the property claims independence (not unit gain) for it
+        out.append({"unit": f"stat:lognormal:{'subclass' if sub else 'flat'}", "kind": "stat", "fading": "lognormal", "K": None, "subclass": sub, "cost": 4})
     out.append({"unit": "noise-stage", "kind": "noise", "cost": 4})
     return out
 
@@ -121,7 +124,7 @@ def run_unit(ctx, u):
         chan = make(ft, 1, K, sub)
         h = chan(torch.ones(B, L))
         ctx.case("stat", ft, K, sub)
-        Kv = 0.0 if ft == "rayleigh" else K
+        Kv = 0.0 if ft in ("rayleigh", "lognormal") else K
         mu = math.sqrt(Kv / (Kv + 1))
         s2 = 1.0 / (2 * (Kv + 1))
         hr, hi = h.real.double(), h.imag.double()
@@ -132,16 +135,21 @@ def run_unit(ctx, u):
             tests.append(dict(test=name, ok=bool(ok), **kw))
             ctx.note_add("statistical_tests_run")
 
+        if ft == "lognormal":
+            cfgc = f"lognormal,{'subclass' if sub else 'flat'}"
         hw = stats.gaussian_mean_halfwidth(N, s2, ALPHA)
         m_r, m_i = float(hr.mean()), float(hi.mean())
         ok = abs(m_r - mu) <= hw + 1e-6 and abs(m_i) <= hw + 1e-6
-        rec("component means (LOS amplitude)", ok, mean_real=m_r, mean_imag=m_i, expected_real=mu, halfwidth=hw)
-        ctx.check(ok, "unit mean-square gain / K-factor", f"{cfgc}|coefficients|unit mean-square gain / K-factor|line-of-sight amplitude outside exact Gaussian interval", mean_real=m_r, mean_imag=m_i, expected=mu, halfwidth=hw, seed=ctx.seed)
+        gain_claim = ft != "lognormal"
+        if gain_claim:
+            rec("component means (LOS amplitude)", ok, mean_real=m_r, mean_imag=m_i, expected_real=mu, halfwidth=hw)
+        ctx.check(ok or not gain_claim, "unit mean-square gain / K-factor", f"{cfgc}|coefficients|unit mean-square gain / K-factor|line-of-sight amplitude outside exact Gaussian interval", mean_real=m_r, mean_imag=m_i, expected=mu, halfwidth=hw, seed=ctx.seed)
         lo, hi_ = stats.gaussian_sumsq_interval(N, s2, ALPHA)
         v_r, v_i = float(((hr - mu) ** 2).mean()), float((hi**2).mean())
         ok = lo * (1 - 1e-5) <= v_r <= hi_ * (1 + 1e-5) and lo * (1 - 1e-5) <= v_i <= hi_ * (1 + 1e-5)
-        rec("scattered variance per component", ok, var_real=v_r, var_imag=v_i, expected=s2, interval=[lo, hi_])
-        ctx.check(ok, "unit mean-square gain / K-factor", f"{cfgc}|coefficients|unit mean-square gain / K-factor|scattered power outside exact chi-square interval", var_real=v_r, var_imag=v_i, expected=s2, interval=[lo, hi_], mean_square_gain=float((h.abs() ** 2).double().mean()), seed=ctx.seed)
+        if gain_claim:
+            rec("scattered variance per component", ok, var_real=v_r, var_imag=v_i, expected=s2, interval=[lo, hi_])
+        ctx.check(ok or not gain_claim, "unit mean-square gain / K-factor", f"{cfgc}|coefficients|unit mean-square gain / K-factor|scattered power outside exact chi-square interval", var_real=v_r, var_imag=v_i, expected=s2, interval=[lo, hi_], mean_square_gain=float((h.abs() ** 2).double().mean()), seed=ctx.seed)
         # independence: sign agreement of centred components ~ Bin(M, 1/2)
         a = hr - mu
         for name, p1, p2 in (("neighbouring blocks", a[:, 1:], a[:, :-1]), ("batch items", a[1:, :], a[:-1, :]), ("real vs imag", a, hi)):
@@ -150,6 +158,17 @@ def run_unit(ctx, u):
             lo_k, hi_k = stats.binom_count_interval(M, 0.5, ALPHA)
             ok = lo_k <= agree <= hi_k
             rec(f"sign agreement: {name}", ok, agree=agree, M=M, interval=[lo_k, hi_k])
+            ctx.check(ok, "independent across blocks and batch items", f"{cfgc}|coefficients|independent across blocks and batch items|dependence between {name}", agree=agree, M=M, interval=[lo_k, hi_k], seed=ctx.seed)
+        # independence of the *magnitudes* (a gain factor shared by neighbours leaves the signs independent): agreement of
+        # the indicators |h|^2 > pooled median ~ Bin(M, 1/2) under independence (distribution-free)
+        p2 = (h.abs() ** 2).double()
+        above = p2 > p2.median()
+        for name, q1, q2 in (("magnitudes of neighbouring blocks", above[:, 1:], above[:, :-1]), ("magnitudes of batch items", above[1:, :], above[:-1, :])):
+            agree = int((q1 == q2).sum())
+            M = q1.numel()
+            lo_k, hi_k = stats.binom_count_interval(M, 0.5, ALPHA)
+            ok = lo_k <= agree <= hi_k
+            rec(f"median-split agreement: {name}", ok, agree=agree, M=M, interval=[lo_k, hi_k])
             ctx.check(ok, "independent across blocks and batch items", f"{cfgc}|coefficients|independent across blocks and batch items|dependence between {name}", agree=agree, M=M, interval=[lo_k, hi_k], seed=ctx.seed)
         ctx.sample({"unit": u["unit"], "N": N, "alpha_per_test": ALPHA, "tests": tests})
         return
